@@ -73,9 +73,14 @@ def run(ctx, F, cg):
                 continue    # known finding under R11a (bulk column write)
             b = Body(F.mir(r["path"]), r)
             ctx.saw_fn(r["path"]); ctx.saw_calls(len(b.calls()))
+            chk = _constraint_checkers(F)
             looks = [c for c in b.calls() if c.path.endswith("IndexManager::unique_constraint_holder") or c.path.endswith("IndexManager::check_unique_constraint")]
             regs = [c for c in b.calls() if c.path.endswith("IndexManager::constraint_insert")]
             viol = [i for i, j, pl, rv, line, exp in b.stmts() if rv[0] == "agg" and rv[1].endswith("GraphError::ConstraintViolation")]
+            for c in b.calls():
+                if c.path in chk and _fail_targets(b, c):
+                    looks.append(c)
+                    viol.extend(_fail_targets(b, c))
             if looks and regs and viol:
                 ctx.ok("R11f", "%s|%s" % (kind, n), "looks the value up (%d), can refuse, and registers it (%d)" % (len(looks), len(regs)))
             else:
@@ -153,6 +158,10 @@ def run(ctx, F, cg):
     holders = [c for c in b.calls() if c.path.endswith("IndexManager::unique_constraint_holder") or c.path.endswith("IndexManager::check_unique_constraint")]
     writes = [c for c in b.calls() if (c.path.endswith("ColumnStore::set_property") or c.path.endswith("Node::set_property") or c.path.endswith("IndexManager::constraint_insert"))]
     viol = [i for i, j, pl, rv, line, exp in b.stmts() if rv[0] == "agg" and rv[1].endswith("GraphError::ConstraintViolation")]
+    for c in b.calls():
+        if c.path in _constraint_checkers(F) and _fail_targets(b, c):
+            holders.append(c)
+            viol.extend(_fail_targets(b, c))
     if not holders or not viol:
         ctx.violation("R11b", "set_node_property|no-check", where(sp), "set_node_property never checks the unique constraint")
     else:
@@ -180,6 +189,38 @@ def run(ctx, F, cg):
         ctx.ok("R04b", "no-dropped-store-results", "all %d call sites use the Result" % total)
     return ("Decided: whether each way a node can give up a constrained value releases it in the constraint index, that the check precedes the writes, and that "
             "write operators do not discard the store's constraint error. Not decided: value equality classes of the index keys (C10).")
+
+
+def _constraint_checkers(F):
+    """GraphStore-local helpers that look a value up in the constraint index and can refuse (build ConstraintViolation):
+    a call of one, with its error propagated, is the lookup-and-refuse step moved into a function."""
+    out = set()
+    for p_, r_ in F.fns.items():
+        if not p_.startswith(sm.GS + "::") or "{closure" in p_:
+            continue
+        if not any(c.endswith("IndexManager::unique_constraint_holder") or c.endswith("IndexManager::check_unique_constraint") for c in r_["calls"]):
+            continue
+        if "Result<" not in r_["sig"].rsplit("->", 1)[-1]:
+            continue
+        m_ = F.mir(p_)
+        if m_ is None:
+            continue
+        hb = Body(m_, r_)
+        if any(rv[0] == "agg" and rv[1].endswith("GraphError::ConstraintViolation") for i, j, pl, rv, line, exp in hb.stmts()):
+            # no store write inside: it only checks
+            if not any(c.endswith("ColumnStore::set_property") or c.endswith("Node::set_property") for c in r_["calls"]):
+                out.add(p_)
+    return out
+
+
+def _fail_targets(b, call):
+    from .. import mutpoints as mp_
+    side = mp_.some_side(b, call)
+    if side is None:
+        return []
+    sb_, ok_t = side
+    t_ = b.blocks[sb_]["t"]
+    return [tgt for v, tgt in t_[2] if tgt != ok_t] + ([t_[3]] if t_[3] != ok_t else [])
 
 
 def _cond_chain_has(b, sw_block, test_call):
